@@ -38,6 +38,7 @@ Inductive sop :=
 | SetSeed (s : Z) | Reset
 | Save                 (* push getstate() on this stream's stack of saved states *)
 | Restore (k : nat)    (* setstate(the k-th most recent state saved by this stream) *)
+| RestoreFrom (j k : nat)  (* setstate(the k-th most recent state saved by stream j of the store) *)
 | QSeed | QOrig        (* seed(), original_seed() *)
 | NextIntIllTyped      (* next_int with a non-numeric bound: TypeError, no draw *)
 | RestoreGarbage.      (* restore_state(object that is no generator state) *)
@@ -174,6 +175,7 @@ Section Wrapper.
     | QOrig => (m, OSeed (orig m))
     | NextIntIllTyped => (m, ORaise ETypeError)
     | RestoreGarbage => (m, ORaise EBadState)
+    | RestoreFrom _ _ => (m, ORaise ENoStream)   (* needs the store: see [sstep] *)
     end.
 
   Fixpoint run (m : stream) (ops : list sop) : stream * list out :=
@@ -192,9 +194,21 @@ Section Wrapper.
     end.
 
   Definition sstep (st : list stream) (iop : nat * sop) : list stream * out :=
-    match nth_error st (fst iop) with
-    | Some m => let '(m', o) := step m (snd iop) in (upd st (fst iop) m', o)
-    | None => (st, ORaise ENoStream)
+    match snd iop with
+    | RestoreFrom j k =>
+        match nth_error st (fst iop), nth_error st j with
+        | Some m, Some mj =>
+            match nth_error (saved mj) k with
+            | Some g => (upd st (fst iop) (mkS g (cur m) (orig m) (saved m)), ONone)
+            | None => (st, ORaise EBadState)
+            end
+        | _, _ => (st, ORaise ENoStream)
+        end
+    | _ =>
+        match nth_error st (fst iop) with
+        | Some m => let '(m', o) := step m (snd iop) in (upd st (fst iop) m', o)
+        | None => (st, ORaise ENoStream)
+        end
     end.
 
   Fixpoint srun (st : list stream) (ops : list (nat * sop)) : list stream * list out :=
